@@ -13,6 +13,11 @@ round 3:         planted CLASH pairs (a list index both removed and added, merge
                  from the implementation's own sum and from a reordered t2, subtraction from corrupted t2
                  bases, dictionary_item_removed corruptions (model: detected), the documented non-verified
                  categories (DOC_CASES) - all compared with the model.
+after C08-11:    histories on ONE Delta object (history_checks / gen_history_shapes): every well-formed sign pattern of
+                 length <= 6 from t1 and from t2, raise_errors False and True, on inputs built for the ordering code
+                 (sibling keys of different types above lists growing / shrinking by several items); every
+                 intermediate result against t1 / t2, a fresh object and the model; the matchers of F4 / KA
+                 require the failure on the FIRST application of a fresh object (holds8_fresh).
 """
 import copy
 
@@ -31,7 +36,15 @@ RULE = ("pairs as in C01 (ordered mode; random nested values with 1-3 edits, pla
         "the refusal of subtraction is checked for bidirectional=False x always_include_values x raise_errors; operation sequences (+corrupted, +corrupted, +t1, -t2, +corrupted, +corrupted) "
         "on ONE Delta object (raise_errors True and False) are compared step by step with a fresh object and with the pure model; "
         "for each delta every values_changed / type_changes path is corrupted once with a value that differs (Python !=) from the recorded "
-        "old value; back-and-forth sequences of length <= 6. Non-trivial = non-empty delta; distinct by (t1,t2,config[,corruption]).")
+        "old value; back-and-forth sequences of length <= 6. "
+        "HISTORIES on ONE Delta object (raise_errors False and True; 120 pairs built for the ordering code - sibling dict keys of different types (int+str, None+str, "
+        "bool+int, float+int, a tuple key) above lists that grow / shrink by 2-4 atoms or containers at the tail / middle / head, nested, with key renames, set / value / "
+        "type changes - and every 4th pair of the other streams; both alignment modes): the alternating chains +,-,+,-,+,- from t1 and -,+,-,+,-,+ from t2 applied to "
+        "the previous result (all 12 well-formed sign patterns are their prefixes), two random +/- patterns of length 6 on fresh copies of t1 / t2, two random patterns that "
+        "also apply the object to t1 / t2 with one atom replaced (outcome = a fresh object's) or corrupted at a changed location (must be refused); every step must give "
+        "exactly t2 / t1 without any error, a deviating step is compared with a fresh object (different: clause REUSE, never a known finding); the actual results of "
+        "sampled steps are compared with the pure model under visiting orders computed on a fresh delta. "
+        "Non-trivial = non-empty delta; distinct by (t1,t2,config[,corruption]).")
 TRUSTED = c01.TRUSTED
 ASSUMPTIONS = c01.ASSUMPTIONS
 
@@ -348,8 +361,31 @@ def _inv_only(m):
         t1, t2, cfg, _a = c01._inputs(case)
         if holds8(t1, t2, cfg):          # the finding's own failure must be present on the plain delta
             return False
+        # ... and on the FIRST application of a fresh object: F4 / KA are defects of a single application.  A failure that
+        # appears only on the second or later application of one object (state kept across applications: seeded C08-11,
+        # whose trigger - sibling keys of different types - dealias() happens to remove) is never theirs
+        if holds8_fresh(t1, t2, cfg):
+            return False
         return m(case, holds8)
     return f
+
+
+def holds8_fresh(t1, t2, cfg):
+    """the inversion clause with a NEW Delta object for every single application (no history on any object)"""
+    from deepdiff import DeepDiff, Delta
+    try:
+        dd = DeepDiff(copy.deepcopy(t1), copy.deepcopy(t2), **cfg)
+        new = lambda: Delta(dd, bidirectional=True)
+        with DC.Counting() as cnt:
+            fwd = copy.deepcopy(t1) + new()
+            back = copy.deepcopy(t2) - new()
+            again = copy.deepcopy(back) + new()
+            back2 = copy.deepcopy(fwd) - new()
+            back3 = c01.reordered(copy.deepcopy(t2)) - new()
+        return (V.typed_eq(fwd, t2) and V.typed_eq(back, t1) and V.typed_eq(again, t2) and V.typed_eq(back2, t1)
+                and V.typed_eq(back3, t1) and cnt.n == 0)
+    except Exception:
+        return False
 
 
 def one_item_sets_added(v):
@@ -608,6 +644,271 @@ def gen_single_added(ctx, n):
         ctx.count("gen:one_element_container_added")
         out.append((t1, t2))
     return out
+
+
+# ---------------------------------------------------------------------------
+# histories on ONE Delta object (added after seeded C08-11: state kept on / keyed by the Delta object or its report
+# dicts across applications, depending on the direction).  Inputs built for the ordering code of _do_item_added /
+# _do_item_removed: sibling dict keys of different types (int+str, None+str, bool+int, float+int, a tuple key) at the
+# level above lists that grow / shrink by 2-4 items at the tail / in the middle / at the head (atoms and containers:
+# with both alignment modes the item-by-item and the opcode encodings occur), nested, with key renames and other categories
+# ---------------------------------------------------------------------------
+HIST_KEYSETS = [(1, "a"), (None, "a"), (True, 2), (0.5, 3), (None, "a", 4), ("b", 2, 1.5), (False, "k1"), (2, "a", "b"), (3, 1.5, None),
+                (1, 2), ("a", "b"), (None, 2), (0.5, "a"), (True, "a", 2), (4, "4"), ((1, 2), "a"), (("x",), 3)]
+HIST_ATOMS = ["p", "q", "r", "s", "t", "u", "w", "pq", 5, 6, 7, 8, 9, 10, 11, 5.5, 6.5, 7.5, b"p"]
+HIST_THRS = (0, 0, 0, 0.33, 0.9)
+
+
+def _hist_list_pair(rng):
+    """(short, long, where): long = short with 2-4 extra items at the tail / in the middle / at the head"""
+    m, k = rng.randint(0, 3), rng.randint(2, 4)
+    atoms = rng.sample(HIST_ATOMS, m + k)
+    shape = rng.random()
+    items = atoms if shape < 0.5 else [[a] for a in atoms] if shape < 0.75 else [{"k": a} for a in atoms] if shape < 0.9 else [[a, "z"] if i % 2 else a for i, a in enumerate(atoms)]
+    base, extra = items[:m], items[m:]
+    where = rng.choice(("tail", "tail", "middle", "head")) if m else "tail"
+    pos = len(base) if where == "tail" else 0 if where == "head" else rng.randint(1, max(1, m - 1))
+    return base, base[:pos] + extra + base[pos:], where
+
+
+def gen_history_shapes(ctx, n):
+    rng = ctx.rng
+    out = []
+    for _ in range(n):
+        keys = list(rng.choice(HIST_KEYSETS))
+        rng.shuffle(keys)
+        d1, d2 = {}, {}
+        tuple_key_edited = False
+        for i, k in enumerate(keys):
+            r = rng.random()
+            if i < 2 or r < 0.55:
+                a, b, where = _hist_list_pair(rng)
+                if rng.random() < 0.45:
+                    a, b = b, a
+                    ctx.count("hist_gen:list_shrinks_at_" + where)
+                else:
+                    ctx.count("hist_gen:list_grows_at_" + where)
+                deeper = rng.random()
+                if deeper < 0.15:
+                    a, b = {"p": a, 7: "x"}, {"p": b, 7: "x"}
+                elif deeper < 0.3:
+                    a, b = [a, "zz"], [b, "zz"]
+                if isinstance(k, tuple):
+                    if rng.random() < 0.5:
+                        b = copy.deepcopy(a)        # the subtree under a tuple key stays as it is (its delta paths are not faithful)
+                    else:
+                        tuple_key_edited = True
+            elif r < 0.7:
+                a, b = rng.sample(HIST_ATOMS, 2)
+            elif r < 0.8:
+                a, b = 5, "5"
+            elif r < 0.9:
+                a, b = {5, 6, "p"}, {6, "p", 7}
+            else:
+                a = rng.sample(HIST_ATOMS, 2)
+                b = copy.deepcopy(a)
+            d1[k], d2[k] = a, b
+        if rng.random() < 0.4:                     # a renamed key: one dictionary item removed and one added
+            v = rng.choice([[5, 6], "v", {"q": [5]}])
+            ko, kn = rng.choice([("colour", "color"), (21, "21"), ("n", None), (9.5, 9)])
+            if ko not in d1 and kn not in d1:
+                d1[ko], d2[kn] = v, copy.deepcopy(v)
+                ctx.count("hist_gen:renamed_key")
+        wrap = rng.random()
+        if wrap < 0.45:
+            t1, t2 = d1, d2
+        elif wrap < 0.6:
+            t1, t2 = [5, d1, "e"], [5, d2, "e"]
+        elif wrap < 0.8:
+            t1, t2 = {"x": d1, "y": 6}, {"x": d2, "y": rng.choice([6, 8])}
+        else:
+            a, b, _w = _hist_list_pair(rng)
+            if rng.random() < 0.5:
+                a, b = b, a
+            t1, t2 = {3: d1, "n": a}, {3: d2, "n": b}
+        ctx.count("hist_gen:pairs")
+        if tuple_key_edited:
+            ctx.count("hist_gen:edits_below_a_tuple_key(outside the domain: history independence only)")
+        out.append((t1, t2))
+    return out
+
+
+def _has_tuple_key(v):
+    if isinstance(v, dict):
+        return any(isinstance(k, tuple) or _has_tuple_key(x) for k, x in v.items())
+    if isinstance(v, (list, tuple)):
+        return any(_has_tuple_key(x) for x in v)
+    return False
+
+
+def _hcanon(v):
+    """type-strict canonical form up to dict / set order, total (also for keys outside the model's universe)"""
+    if isinstance(v, (list, tuple)):
+        return [type(v).__name__, [_hcanon(x) for x in v]]
+    if isinstance(v, dict):
+        return ["dict", sorted(([repr(_hcanon(k)), _hcanon(x)] for k, x in v.items()), key=repr)]
+    if isinstance(v, (set, frozenset)):
+        return [type(v).__name__, sorted(repr(_hcanon(x)) for x in v)]
+    return [type(v).__name__, repr(v)]
+
+
+def hist_eq(a, b):
+    try:
+        return V.typed_eq(a, b)
+    except Exception:
+        return _hcanon(a) == _hcanon(b)
+
+
+def _happly(plus, base, o):
+    """(outcome, result, number of _raise_or_log calls) of  base + o  /  base - o  on a copy of base"""
+    with DC.Counting() as c0:
+        try:
+            r0 = (copy.deepcopy(base) + o) if plus else (copy.deepcopy(base) - o)
+            return ("ok", r0, c0.n)
+        except Exception as e:
+            return ("raised %s: %s" % (type(e).__name__, str(e)[:100]), None, c0.n)
+
+
+def _same_outcome(a, b):
+    return (a[0].split(":")[0] == b[0].split(":")[0] and (a[1] is None) == (b[1] is None)
+            and (a[1] is None or hist_eq(a[1], b[1])) and (a[2] > 0) == (b[2] > 0))
+
+
+def _first_changed_bases(rng, diff, t1, t2):
+    """(t1 corrupted at the first values_changed / type_changes path, t2 corrupted there) - None where there is none"""
+    for cat in ("values_changed", "type_changes"):
+        for p, ch in diff.get(cat, {}).items():
+            if "old_value" not in ch or "new_value" not in ch:
+                continue
+            try:
+                keys = py_path(DC.parse_pathc(p))
+                keys2 = py_path(DC.parse_pathc(ch["new_path"])) if ch.get("new_path") else keys
+                get_at(t1, keys), get_at(t2, keys2)
+                return (set_at(copy.deepcopy(t1), keys, corrupt_value(rng, ch["old_value"])),
+                        set_at(copy.deepcopy(t2), keys2, corrupt_value(rng, ch["new_value"])))
+            except Exception:
+                continue
+    return None, None
+
+
+ALL_SIGN_PATTERNS = ["".join(p) for n_ in range(1, 7) for p in __import__("itertools").product("+-", repeat=n_)]
+
+
+def history_checks(ctx, t1, t2, cases, full=False, corr_rate=1.0):
+    """ONE Delta object along sign patterns of length <= 6, raise_errors False and True:
+    * the two alternating chains +,-,+,-,+,- (from t1) and -,+,-,+,-,+ (from t2), every step applied to the previous RESULT:
+      all twelve well-formed patterns are their prefixes; every intermediate result must be t2 / t1, nothing logged or raised;
+    * patterns over {+,-} in any order, each step on a fresh copy of t1 / t2 (two random ones of length 6 per object; a replay runs
+      all 126), and patterns that also apply the object to OTHER bases in between: t1 / t2 with one atom replaced anywhere ('P' / 'M':
+      the outcome must be that of a fresh object) and t1 / t2 corrupted at a changed location ('C' / 'K': must be refused, raised or logged);
+    * a step whose outcome is not the expected one is compared with a FRESH object on the same base: different -> clause REUSE (no
+      known finding is about that), same -> clause INVERSION / DETECTION (a fresh first application fails too);
+    * correspondence: actual results of the logging object's steps against the pure model, whose visiting orders are computed on a
+      fresh delta (a stale order inside the implementation shows up as a model / implementation disagreement)."""
+    import random
+    import zlib
+    from deepdiff import DeepDiff, Delta
+    pair_seed = repr((_hcanon(t1), _hcanon(t2)))
+    lrng = random.Random(zlib.crc32(pair_seed.encode()))
+    outside = _has_tuple_key(t1) or _has_tuple_key(t2)
+    guard = (not outside) and c01.in_guard(t1, t2) and DC.in_universe(t1) and DC.in_universe(t2)
+    desc = c01.describe(t1, t2)
+    cfgs = [(z, th) for z in (False, True) for th in ((0, 0.33, 0.9) if full else (lrng.choice(HIST_THRS),))]
+    for zip_, thr in cfgs:
+        cfg = dict(zip_ordered_iterables=zip_, threshold_to_diff_deeper=thr)
+        base_case = dict(t1=repr(t1), t2=repr(t2), cfg=cfg, shared=None, **desc)
+        # the (pair, configuration)'s own streams: a replay (all thresholds, no correspondence cases) draws the same histories
+        lrng = random.Random(zlib.crc32((pair_seed + repr((zip_, thr))).encode()))
+        crng = random.Random(zlib.crc32((pair_seed + repr((zip_, thr, "corr"))).encode()))
+        try:
+            dd = DeepDiff(*copy.deepcopy((t1, t2)), view="tree", **cfg)
+            d0 = Delta(dd, bidirectional=True)
+        except Exception as e:
+            ctx.fail(dict(base_case, clause=BUILD, observed="raised %s" % type(e).__name__), "building a bidirectional delta raised")
+            continue
+        ctx.seen(("hist", repr(t1), repr(t2), zip_, thr), nontrivial=bool(d0.diff))
+        for cat in d0.diff:
+            ctx.count("hist:delta_with_" + cat)
+        if len(d0.diff) >= 3:
+            ctx.count("hist:delta_with_3+_categories")
+        for cat in ("iterable_item_added", "iterable_item_removed", "dictionary_item_removed"):
+            ps = list(d0.diff.get(cat, {}).items())
+            if len(ps) >= 2:
+                try:
+                    sorted(ps, key=Delta._sort_key_for_item_added)
+                except TypeError:
+                    ctx.count("hist:%s_sorted_by_the_fallback_comparison" % cat)
+        c1, c2 = _first_changed_bases(lrng, d0.diff, t1, t2)
+        others = {"P": V.edit(lrng, t1, kinds=["replace_atom"])[0], "M": V.edit(lrng, t2, kinds=["replace_atom"])[0]}
+        if c1 is not None:
+            others.update(C=c1, K=c2)
+        model_args = None
+        if guard and cases is not None:
+            payload = DC.delta_obs(d0.diff)
+            rem, add = DC.impl_orders(d0)
+            rd = Delta(dd, bidirectional=True)
+            rd.diff = rd._get_reverse_diff()
+            rrem, radd = DC.impl_orders(rd)
+            model_args = (payload, rem, add, rrem, radd, DC.type_change_pairs(dd))
+        for re_ in (False, True):
+            pats = [("+-+-+-", True), ("-+-+-+", True)]
+            pats += [("".join(lrng.choice("+-") for _ in range(6)), False) for _ in range(2)]
+            pats += [("".join(lrng.choice("+-+-" + "".join(sorted(others))) for _ in range(6)), False) for _ in range(2)]
+            if full:
+                pats += [(p_, False) for p_ in ALL_SIGN_PATTERNS]
+            for pat, chained in pats:
+                obj = Delta(dd, bidirectional=True, raise_errors=re_)
+                cur, steps = None, []
+                ctx.count("hist:objects")
+                for k, sym in enumerate(pat):
+                    plus = sym in "+PC"
+                    if sym in "+-":
+                        base = cur if (chained and cur is not None) else (t1 if plus else t2)
+                        want = t2 if plus else t1
+                    else:
+                        base, want = others[sym], None
+                    got = _happly(plus, base, obj)
+                    ctx.count("hist:steps")
+                    hcase = dict(base_case, history=dict(pattern=pat, each_step_on_the_previous_result=chained, raise_errors=re_, step=k, op=sym),
+                                 base=repr(base))
+                    if sym in "+-" and got[0] == "ok" and got[2] == 0 and hist_eq(got[1], want):
+                        cur = got[1]
+                        steps.append((k, sym, base, got))
+                        continue
+                    ref = _happly(plus, base, Delta(dd, bidirectional=True, raise_errors=re_))
+                    obs = dict(reused=(got[0], repr(got[1]), got[2]), fresh=(ref[0], repr(ref[1]), ref[2]))
+                    if not _same_outcome(got, ref):
+                        ctx.fail(dict(hcase, clause=REUSE, observed=obs),
+                                 "history %s on one Delta object (raise_errors=%s): step %d (%s) differs from a fresh object on the same base" % (pat, re_, k, sym))
+                        break
+                    if sym in "+-":
+                        if outside:
+                            ctx.count("hist:outside_domain:exact_base_fails_on_a_fresh_object_too")
+                            break
+                        ctx.fail(dict(hcase, clause=INVERSION, observed=obs),
+                                 "history %s on one Delta object (raise_errors=%s): step %d (%s) %s (a fresh object does the same)" % (
+                                     pat, re_, k, sym, "rejects the exact base" if got[0] != "ok" else "does not give " + ("t2" if plus else "t1") if not hist_eq(got[1], want) else "logs an error"))
+                        break
+                    if sym in "CK" and not (got[0] != "ok" if re_ else (got[2] > 0 or got[0] != "ok")):
+                        ctx.fail(dict(hcase, clause=DETECTION, observed=obs), "a mismatched base was accepted at step %d of history %s (raise_errors=%s)" % (k, pat, re_))
+                        break
+                    if got[0] == "ok":
+                        steps.append((k, sym, base, got))
+                # --- correspondence on the history's ACTUAL results (logging object) ---
+                if model_args and not re_ and steps and crng.random() < corr_rate:
+                    payload, rem, add, rrem, radd, pairs = model_args
+                    later = [s_ for s_ in steps if s_[0] >= 1 and s_[1] in "+-CK"]      # 'P' / 'M': against a fresh object only
+                    pick = ([s_ for s_ in later if s_[0] == 1] + [crng.choice(later)]) if (chained and later) else [crng.choice(later)] if later else []
+                    for k, sym, base, got in {s_[0]: s_ for s_ in pick}.values():
+                        if not (DC.in_universe(base) and DC.in_universe(got[1])):
+                            continue
+                        tag = dict(t1=repr(t1), t2=repr(t2), zip=zip_, thr=thr, base=repr(base), op="history %s on one object, step %d (%s)" % (pat, k, sym))
+                        if sym in "+PC":
+                            cv = DC.conv_table(pairs + [(type(x.t2), get_safe(base, x)) for x in dd.get("type_changes", []) if get_safe(base, x) is not DC._NF])
+                            cases.append((DC.model_expr(t1, t2, zip_, thr, True, False, base, cv, rem, add), [payload, [DC.canon_unordered(got[1]), got[2] > 0]], tag))
+                        else:
+                            cases.append((DC.model_expr(t1, t2, zip_, thr, True, False, base, DC.conv_table(pairs), rrem, radd, want="sub"),
+                                          [payload, [DC.canon_unordered(got[1]), got[2] > 0]], tag))
 
 
 def one_pair(ctx, t1, t2, cases, corr=True, hyp_cases=None, shared=None, all_variants=False, observers=False):
@@ -978,22 +1279,200 @@ def get_safe(base, level):
         return DC._NF
 
 
+# ---------------------------------------------------------------------------
+# source tie (second tie between model and code): harness/translate/deltapasses.py regenerates Delta.__add__ (pass order,
+# deepcopy-unless-mutate, try/finally + reset), __radd__, __rsub__, _get_reverse_diff, _do_verify_changes / _raise_or_log and the
+# thin pass wrappers _do_* from the CURRENT deepdiff/delta.py as Gallina text (DDGen.DeltaGen, over the vocabulary of
+# Delta/DeltaSrc.v); coq/srctie/DeltaGenEquiv.v proves them equal to Delta/DeltaModel.v (apply / reverse / sub / verify, the
+# list `passes`) for all arguments and restates C08's theorems about them
+# ---------------------------------------------------------------------------
+SOURCE_TIES = [{"name": "deltapasses", "translator": "deltapasses", "gen_module": "DeltaGen", "equiv": ["DeltaGenEquiv"],
+                "needs": ["Delta.DeltaSrc", "Delta.DeltaShow", "Properties.C08"],
+                "sources": ["deepdiff/delta.py"],
+                "fragment": "class Delta: __add__ (order of the 14 passes, deepcopy unless mutate, try/finally, reset), __radd__, __rsub__, "
+                            "_get_reverse_diff (per-category table, swapped fields, opcode reversal), _do_verify_changes, _raise_or_log, reset and the "
+                            "pass wrappers _do_values_changed / _do_type_changes / _do_set_item_added / _do_set_item_removed / _do_iterable_item_removed / "
+                            "_do_iterable_item_added / _do_dictionary_item_added / _do_dictionary_item_removed / _do_attribute_added / "
+                            "_do_attribute_removed / _do_post_process (+ the guards of _do_pre_process and _do_ignore_order); NOT the workers "
+                            "_do_values_or_type_changed, _do_item_added, _do_item_removed, _do_set_or_frozenset_item, _do_iterable_opcodes"}]
+TIE_STATE = {"decided": False}
+
+TIE_HDR = (DC.HDR + "\nFrom DD Require Import Delta.DeltaSrc Delta.DeltaReverseSeq.\nFrom DDGen Require Import DeltaGen.\n"
+           "Definition tie_fresh (d : delta) : dobj := mkObj d None false (mkSt (VAtom ANone) [] 0).\n"
+           "Definition tie_add cv ro ao (d : delta) (v : value) : value * nat := let '(o, r) := g___add__ cv ro ao (tie_fresh d) v in (r, obj_errs o).\n"
+           "Definition tie_sub cv ro ao (d : delta) (v : value) : option (value * nat) :=\n"
+           "  match g___rsub__ cv ro ao (tie_fresh d) v with Some (o, r) => Some (r, obj_errs o) | None => None end.\n"
+           "Fixpoint tie_seq cv ro ao (o : dobj) (l : list dir) (v : value) : option (value * nat) :=\n"
+           "  match l with\n  | [] => Some (v, 0)\n"
+           "  | Plus :: l' => let '(o', r) := g___add__ cv ro ao o v in\n"
+           "      match tie_seq cv ro ao o' l' r with Some (v', k) => Some (v', obj_errs o' + k) | None => None end\n"
+           "  | Minus :: l' => match g___rsub__ cv ro ao o v with\n"
+           "      | Some (o', r) => match tie_seq cv ro ao o' l' r with Some (v', k) => Some (v', obj_errs o' + k) | None => None end\n"
+           "      | None => None end\n  end.\n"
+           "Definition tie_rev (d : delta) : sx := match g__get_reverse_diff (tie_fresh d) with Some r => sx_delta r | None => SA \"None\" end.\n"
+           "Definition hand_rev (d : delta) : sx := if d_bidir d then sx_delta (reverse d) else SA \"None\".\n"
+           "Definition tie_verify (b : bool) (e : option value) (c : value) : sx :=\n"
+           "  sx_nat (obj_errs (g__do_verify_changes (mkObj (diff_empty b) None false (mkSt c [] 0)) [] e c)).\n"
+           "Definition hand_verify (b : bool) (e : option value) (c : value) : sx := sx_nat (errs (verify b e c (mkSt c [] 0))).\n")
+
+
+def _tie_expr(t1, t2, zip_, thr, conv, rem, add, rrem, radd):
+    """(hand, generated): on one (t1, t2, config) the results of + on t1 and on t2, of - on t2 and on t1 (bidirectional and
+    directed delta), of the sequence +,-,+,- on ONE object, the reversed payload, and the verification decision on a small grid"""
+    ops = D.coq_ops_table(D.opcode_table(t1, t2))
+    pre = ("(let r := run_diff hatom_deep (tbl_udiff %s) (tbl_ops %s) no_paths no_paths %s %s %s in let cv := tbl_conv %s in "
+           "let d := to_delta cv true false (tbl_ops %s) %s %s (fst r) (snd r) in "
+           "let dd := to_delta cv false false (tbl_ops %s) %s %s (fst r) (snd r) in "
+           "let ro := order_by %s fst in let ao := order_by %s fst in let rro := order_by %s fst in let rao := order_by %s fst in "
+           "let a := %s in let b := %s in ") % (
+        D.coq_udiff_table(D.udiff_table(t1, t2)), ops, D.coq_cfg(zip_, thr, True), V.to_coq(t1), V.to_coq(t2), conv,
+        ops, V.to_coq(t1), V.to_coq(t2), ops, V.to_coq(t1), V.to_coq(t2),
+        DC.coq_paths(rem), DC.coq_paths(add), DC.coq_paths(rrem), DC.coq_paths(radd), V.to_coq(t1), V.to_coq(t2))
+    grid = "; ".join("%%s %s %s %s" % (b, e, c) for b in ("true", "false") for e in ("None", "(Some a)", "(Some b)") for c in ("a", "b"))
+    body = ("SL [sx_result (%(add)s cv ro ao d a); sx_result (%(add)s cv ro ao d b); sx_sub_result (%(sub)s cv rro rao d b); "
+            "sx_sub_result (%(sub)s cv rro rao d a); sx_sub_result (%(sub)s cv rro rao dd b); sx_result (%(add)s cv ro ao dd a); "
+            "sx_sub_result (%(seq)s [Plus; Minus; Plus; Minus] a); %(rev)s d; %(rev)s dd; " + grid.replace("%s", "%(ver)s") + "])")
+    hand = pre + body % dict(add="apply", sub="sub", seq="run_seq cv ro ao d", rev="hand_rev", ver="hand_verify")
+    gen = pre + body % dict(add="tie_add", sub="tie_sub", seq="tie_seq cv ro ao (tie_fresh d)", rev="tie_rev", ver="tie_verify")
+    return hand, gen
+
+
+class _TieGenCtx:
+    """what the pair generators need of a ctx: their own PRNG (the run's stream is left alone), counters dropped"""
+
+    def __init__(self, seed, thorough):
+        import random
+        self.rng = random.Random(seed)
+        self.thorough = thorough
+        self.tier = "thorough" if thorough else "quick"
+
+    def count(self, *a, **k):
+        pass
+
+
+def tie_search(ctx, name, rec):
+    """(report, differing): the (t1, t2, zip, thr) from the generators on which the model regenerated from the current delta.py and
+    the hand-written model differ, both evaluated inside Coq (shared by C08 and C01, which register the same tie)"""
+    import os
+    import re as _re
+    from concurrent.futures import ThreadPoolExecutor
+    from deepdiff import DeepDiff, Delta
+    if name != "deltapasses":
+        return {"searched": "nothing (unknown tie)"}, []
+    gen_dir = os.path.join(ctx.scratch, "srctie")
+    if rec.get("status") in ("translator-rejected", "generated-model-does-not-compile") or not os.path.exists(os.path.join(gen_dir, "DeltaGen.vo")):
+        return {"searched": "nothing inside Coq (no compiled generated model: %s); run() escalates its streams to thorough size" % rec.get("status")}, []
+    ctx.ensure_built(TIE_HDR)
+    g = _TieGenCtx(ctx.seed + 808, False)
+    pairs = [([1, 2, 3], [1, 3, 4]), ([1, 2, 3], [3, 1]), ({"a": 1, "b": [1, 2]}, {"a": 2, "b": [2]}), ((1, "a"), (2, 3)), ({1, 2}, {2, 3}),
+             ({"a": {1}, "b": 2}, {"a": {2}, "c": 2}), ([[1, 2], [3]], [[2, 1], [3, 4]]), ({"a": 1}, {"a": "1"}), ([1, [2, 3]], [[2, 3, 4], 1])]
+    pairs += c01.gen_random(g, 90) + gen_clash(g, 16) + gen_dict_removed(g, 10) + gen_single_added(g, 6)
+    jobs = []
+    for t1, t2 in pairs:
+        if not c01.in_guard(t1, t2):
+            continue
+        for zip_ in (False, True):
+            thr = 0.33
+            try:
+                dd = DeepDiff(*copy.deepcopy((t1, t2)), view="tree", zip_ordered_iterables=zip_, threshold_to_diff_deeper=thr)
+                d = Delta(dd, bidirectional=True)
+                rem, add = DC.impl_orders(d)
+                rd = Delta(dd, bidirectional=True)
+                rd.diff = rd._get_reverse_diff()
+                rrem, radd = DC.impl_orders(rd)
+                conv = DC.conv_table(DC.type_change_pairs(dd))
+            except Exception:
+                continue
+            jobs.append((t1, t2, zip_, thr, _tie_expr(t1, t2, zip_, thr, conv, rem, add, rrem, radd)))
+    shard = max(1, (len(jobs) + 15) // 16)
+    files = []
+    for k in range(0, len(jobs), shard):
+        fn = os.path.join(ctx.scratch, "tie_cases_%d.v" % (k // shard))
+        with open(fn, "w") as f:
+            f.write("From Coq Require Import List String ZArith NArith Bool.\nImport ListNotations.\nFrom DD Require Import Base.Sx.\n" + TIE_HDR +
+                    "Local Open Scope string_scope.\nDefinition cases : list (sx * sx) := [\n")
+            f.write(";\n".join("(%s,\n %s)" % (gen, hand) for (_a, _b, _z, _t, (hand, gen)) in jobs[k:k + shard]))
+            f.write("\n].\nEval vm_compute in run_cases cases.\n")
+        files.append((k, fn))
+
+    def one(kf):
+        return core.sh(["coqc", "-Q", core.THEORIES, "DD", "-Q", gen_dir, "DDGen", kf[1]], timeout=900, cwd=ctx.scratch)
+    with ThreadPoolExecutor(max_workers=core.NCPU) as ex:
+        results = list(ex.map(one, files))
+    differing, errors = [], []
+    for (k, fn), (rc, out) in zip(files, results):
+        m = _re.search(r'"BEGIN\n(.*)END"', out, _re.S)
+        if rc != 0 or not m:
+            errors.append(out[-400:])
+            continue
+        for line in m.group(1).splitlines():
+            if line.strip():
+                differing.append(jobs[k + int(line.partition("\t")[0])])
+    res = {"searched": "%d (t1, t2, config) from the module's generators: generated __add__ / __rsub__ / _get_reverse_diff / _do_verify_changes vs "
+                       "DeltaModel.apply / sub / reverse / verify inside Coq (+ on t1 and t2, - on t2 and t1, directed delta, the sequence +,-,+,- on one "
+                       "object, reversed payload, 12 verification decisions)" % len(jobs),
+           "differing": len(differing), "coq_errors": errors[:2]}
+    differing.sort(key=lambda j: len(repr(j[0])) + len(repr(j[1])))
+    uniq, seenp = [], set()
+    for (t1, t2, zip_, thr, _e) in differing:
+        if (repr(t1), repr(t2)) not in seenp:
+            seenp.add((repr(t1), repr(t2)))
+            uniq.append((t1, t2, zip_, thr))
+    return res, uniq
+
+
+def on_source_tie_break(ctx, name, rec):
+    """The model regenerated from the current delta.py is no longer proved equal to the hand-written one (or could not be
+    generated).  Search for a concrete (t1, t2, config) on which the two differ - both evaluated inside Coq on pairs from
+    the module's own generators - then judge that pair like any generated case: the direct oracle of one_pair (inversion,
+    detection, refusal, reuse; all construction variants) and the correspondence of the hand model with the implementation."""
+    res, differing = tie_search(ctx, name, rec)
+    if not differing:
+        return res
+    judged, cases = [], []
+    f0, b0, k0 = len(ctx.failures), len(ctx.breaks), sum(v["n"] for v in ctx.known_seen.values())
+    for (t1, t2, zip_, thr) in differing[:5]:
+        ctx.count("gen:source_tie_differing_pair")
+        one_pair(ctx, t1, t2, cases, all_variants=True, observers=True)
+        judged.append({"t1": repr(t1), "t2": repr(t2), "first_cfg(zip,thr)": [zip_, thr]})
+    ctx.coq_cases("c08tie", DC.HDR, cases, shard=60, label="source_tie_differing_pairs")
+    res["first_differing"] = judged
+    res["judged"] = {"new_oracle_failures": len(ctx.failures) - f0, "new_breaks": len(ctx.breaks) - b0,
+                     "known_finding_cases": sum(v["n"] for v in ctx.known_seen.values()) - k0}
+    if len(ctx.failures) > f0 or len(ctx.breaks) > b0:
+        TIE_STATE["decided"] = True          # a concrete input was found and judged: no need to escalate the random streams
+    return res
+
+
 def run(ctx):
     del ORDER_CASES[:]
     del REM_CASES[:]
     cases = []
     hyp_cases = []
-    pairs = c01.gen_random(ctx, 1700 if ctx.thorough else 250)
-    pairs += gen_clash(ctx, 120 if ctx.thorough else 24)
-    pairs += gen_dict_removed(ctx, 80 if ctx.thorough else 16)
-    single = gen_single_added(ctx, 60 if ctx.thorough else 12)
+    # a source tie that is not intact (and whose search found no concrete differing input) escalates the streams to thorough size
+    big = ctx.thorough or (ctx.tie_broken("deltapasses") and not TIE_STATE["decided"])
+    if big and not ctx.thorough:
+        ctx.count("escalated_by_broken_source_tie")
+    pairs = c01.gen_random(ctx, 1700 if big else 250)
+    pairs += gen_clash(ctx, 120 if big else 24)
+    pairs += gen_dict_removed(ctx, 80 if big else 16)
+    single = gen_single_added(ctx, 60 if big else 12)
     pairs += single
-    pairs += gen_reordered(ctx, pairs, 120 if ctx.thorough else 24)
+    pairs += gen_reordered(ctx, pairs, 120 if big else 24)
     for t1, t2 in pairs:
         mode = None
         if ctx.rng.random() < 0.13 and not DC.has_container_in_tuple(t1) and not DC.has_container_in_tuple(t2):
             t1, t2, mode = with_sharing(ctx, t1, t2)
         one_pair(ctx, t1, t2, cases, hyp_cases=hyp_cases, shared=mode, observers=any(t1 is a for a, _b in single))
+    # histories on ONE Delta object: the shapes the ordering code depends on (every 8th of them also through all other clauses),
+    # and every 4th pair of the streams above
+    hist_cases = []
+    for i, (t1, t2) in enumerate(gen_history_shapes(ctx, 700 if big else 120)):
+        history_checks(ctx, t1, t2, hist_cases, corr_rate=0.08 if big else 0.2)
+        if i % 8 == 0 and not (_has_tuple_key(t1) or _has_tuple_key(t2)):
+            one_pair(ctx, t1, t2, cases)
+    for t1, t2 in pairs[::4]:
+        history_checks(ctx, t1, t2, hist_cases, corr_rate=0.04 if big else 0.1)
     doc_cases(ctx, cases)
     for c in cases[:3]:
         ctx.sample(c[2])
@@ -1001,6 +1480,7 @@ def run(ctx):
     ctx.coq_cases("c08hyp", HYP_HDR, hyp_cases, shard=160, label="theorem-guards")
     ctx.coq_cases("c08ord", DC.HDR, ORDER_CASES, shard=160, label="ordered values_changed pass under korder")
     ctx.coq_cases("c08rem", REM_HDR, REM_CASES, shard=160, label="guard of the initial-base detection of removed keys")
+    ctx.coq_cases("c08hist", DC.HDR, hist_cases, shard=60, label="actual results of histories on one Delta object")
 
 
 def replay(ctx, data):
@@ -1009,6 +1489,8 @@ def replay(ctx, data):
         t1, t2 = eval(case["t1"]), eval(case["t2"])
         if case.get("shared"):
             t1, t2 = reshare(t1, t2, case["shared"])
-        one_pair(ctx, t1, t2, [], corr=False, shared=case.get("shared"), all_variants=True)
+        if not (_has_tuple_key(t1) or _has_tuple_key(t2)):
+            one_pair(ctx, t1, t2, [], corr=False, shared=case.get("shared"), all_variants=True)
+        history_checks(ctx, t1, t2, None, full=True)      # all 126 sign patterns, all thresholds, the pair's own random histories
     else:
         run(ctx)
